@@ -29,8 +29,8 @@ ASSUMPTIONS = [
     "the voxel corners (global_corners_voxels) are the authoritative advertisement; physical corners must be their image under the base coordinate system",
 ]
 FLOORS = {
-    "quick": {"patch_content_replaced": 150, "base_converted_before_patching": 400, "patched_again_after_move": 400, "assemble_equals_base": 1500, "interiors_partition": 1500, "patch_is_advertised_subimage": 12000, "corners_voxel_vs_physical": 12000},
-    "thorough": {"patch_content_replaced": 1500, "base_converted_before_patching": 4000, "patched_again_after_move": 4000, "assemble_equals_base": 15000, "interiors_partition": 15000, "patch_is_advertised_subimage": 100000, "corners_voxel_vs_physical": 50000},
+    "quick": {"integer_typed_geometry": 300, "patch_content_replaced": 150, "base_converted_before_patching": 400, "patched_again_after_move": 400, "assemble_equals_base": 1500, "interiors_partition": 1500, "patch_is_advertised_subimage": 12000, "corners_voxel_vs_physical": 12000},
+    "thorough": {"integer_typed_geometry": 3000, "patch_content_replaced": 1500, "base_converted_before_patching": 4000, "patched_again_after_move": 4000, "assemble_equals_base": 15000, "interiors_partition": 15000, "patch_is_advertised_subimage": 100000, "corners_voxel_vs_physical": 50000},
 }
 OVERLAPS = [0.0, 0.1, 0.25, 0.5]
 
@@ -149,6 +149,13 @@ def judge_patches(R, P, case):
         if list(cv[k]) != idx:
             good = False
     R.check(good, "centres_voxel_vs_physical", case, group=grp)
+    # centres and corners agree with each other: the advertised physical centre of a patch is the midpoint of its
+    # advertised physical corners
+    mid = np.asarray(P.global_corners_cartesian, float).reshape(-1, 4, 2).mean(axis=1)
+    offm = np.abs(mid - cc) > 64 * eps * scale
+    R.check(not offm.any(), "centre_is_midpoint_of_physical_corners",
+            lambda: {**case, "first": {"patch": int(np.argwhere(offm.any(axis=1))[0][0]), "advertised_centre": cc[np.argwhere(offm.any(axis=1))[0][0]].tolist(),
+                                       "midpoint_of_advertised_corners": mid[np.argwhere(offm.any(axis=1))[0][0]].tolist()}}, group=grp)
 
 
 def run_shard(spec, R):
@@ -219,6 +226,11 @@ def _one(R, darsia, rng, cur, shape, cnt, ov, case_no):
             else:
                 dims = [float(10 ** rng.uniform(-2, 2)), float(10 ** rng.uniform(-2, 2))]
                 origin = [float(rng.uniform(-5, 5) * dims[1]), float(rng.uniform(-5, 5) * dims[0])]
+            if case_no % 5 == 3:
+                # physical dimensions and origin written as plain integers (metres), as users do
+                dims = [int(rng.integers(1, 9)), int(rng.integers(1, 9))]
+                origin = [int(rng.integers(-7, 8)), int(rng.integers(-7, 8))] if case_no % 2 else None
+                R.count("integer_typed_geometry")
             arr = rng.integers(0, 255, size=shape + ((3,) if payload == "colour" else ()), dtype=np.uint8)
             kw = dict(space_dim=2, dimensions=list(dims), scalar=(payload == "scalar"))
             if origin is not None:
